@@ -187,6 +187,7 @@ Definition r0 : rctx := mkR 0 [] None false.
 Record rst := mkS { rbuf : list byte; rc : rctx }.
 Definition rm (A : Type) := rst -> res (A * rst).
 
+Definition blen (s : rst) : nat := length (rbuf s).
 Definition set_buf (s : rst) (b : list byte) : rst := mkS b (rc s).
 Definition set_rc (s : rst) (c : rctx) : rst := mkS (rbuf s) c.
 
